@@ -4,15 +4,16 @@ only non-value outcomes are Panic / OutOfFuel, and the theorems show those do no
 the model returns a value the implementation returns the same value (no panic, within the watchdog).
 Search (not proof): arbitrary Unicode, bounded-exhaustive sequences of lexical fragments, grammar programs with
 arguments dropped / duplicated / out of range, mutations and truncations of the sample songs."""
-import itertools, re
+import itertools, os, re
 import vlib, mmlgen
 
 COQ_TARGET = "props/C07.v"
-THEOREMS = ["C07_calc_length_total", "C07_writer_total"]
+THEOREMS = ["C07_numerals_bounded", "C07_hex_numerals_bounded", "C07_saturation_is_cap", "C07_writer_total"]
 RULE = ("every sequence of up to k lexical fragments from the language's alphabet (k=2 quick over the full alphabet, "
         "k=3 over a reduced alphabet; thorough k=3 full), random junk text incl. non-ASCII, grammar programs with arguments "
-        "dropped/duplicated/out of range, truncations and mutations of /repo/samples, programs of the extended pipeline fragment "
-        "(mmlgen.ext_program: controllers, bends, RPN, reservations, PLAY, Str); non-trivial = distinct input of >= 2 fragments")
+        "dropped/duplicated/out of range (every command name of the implementation's table x 16 argument shapes, every reservation head x "
+        "reservation command x argument shape, each followed by notes; every character of U+0000..U+00FF and of the range boundaries the code tests in 22..32 one-character contexts), truncations and mutations of /repo/samples, programs of the extended "
+        "pipeline fragment (mmlgen.ext_program: controllers, bends, RPN, reservations, PLAY, Str); non-trivial = distinct input of >= 2 fragments")
 TRUSTED = ["watchdog: a case that makes no progress for 15 s counts as a hang",
            "stack overflow / allocation failure / 64-bit overflow checks live in the runtime: observed on the implementation (debug build), not provable on the model"]
 ASSUMES = ["work the program explicitly requests (huge repeat counts, lengths, track numbers > 999, unbounded recursion) is excluded as the property says"]
@@ -42,8 +43,8 @@ def requested_work(s):
         mm = re.match(r"\s*[(=]\s*(\d{1,3})\s*[);\s]", rest + " ")
         if not mm:
             return True
-    if re.search(r"\d{7,}", s):
-        return True
+    if re.search(r"\d{5,}", s):
+        return True      # a length / count of five or more digits (Fadein(99999) = 99999 bars = a 38 MB file, in linear time)
     if len(re.findall(r"WHILE|While|FOR|For\b", s)) >= 2:
         return True
     if re.search(r"FUNCTION|Function", s):
@@ -51,9 +52,76 @@ def requested_work(s):
     return False
 
 
+def command_names():
+    """every command name of the implementation's system-function table, read from /repo on every run"""
+    repo = os.environ.get("SAKURA_REPO", "/repo")
+    try:
+        text = open(os.path.join(repo, "src", "mml_def.rs"), encoding="utf-8").read()
+    except OSError:
+        return []
+    m = re.search(r"//<SYSTEM_FUNCTION>(.*?)//</SYSTEM_FUNCTION>", text, re.S)
+    names = []
+    for line in (m.group(1) if m else text).split("\n"):
+        st = line.strip()
+        if st.startswith("//"):
+            continue
+        mm = re.match(r'sysfunc_(?:cc_|rpn_)?add!\(\s*sf\s*,\s*"([^"]+)"', st)
+        if mm:
+            names.append(mm.group(1))
+    return list(dict.fromkeys(names))
+
+
+ARG_SHAPES = ["", "()", "(0)", "(-1)", "(1,2,3)", "=", "=0;", "(0,0,0,0,0,0,0,0)", "({x})", "(99999)", "(,)", "(1,", "(128,128)", "=-5;", "(c)", "(1:2:3)"]
+RESERVE_HEADS = ["v", "q", "t", "o", "l", "h", "y1", "y7", "M", "V", "P", "EP", "PS", "REV", "CHO", "PB", "p", "BR", "PT", "PVS", "Tempo"]
+RESERVE_CMDS = ["onNote", "N", "onTime", "T", "onCycle", "C", "onNoteWave", "W", "onNoteWaveEx", "WE", "onNoteWaveR", "WR", "Random", "R",
+                "Frequency", "Delay", "Repeat", "Range", "Sine", "S", "x"]
+TAILS = [" c", " c d e", " n60 r 'ce' c&d", " r4 c", " [3 c]", " TR(2) c"]
+
+
+def grammar_stream(rng, quick):
+    """grammar-derived programs with arguments dropped, duplicated or out of range: every command name of the table x
+    every argument shape, and every reservation head x reservation command x argument shape, each followed by notes
+    (several defects only show when the NEXT note is played)"""
+    out = []
+    for n in command_names():
+        for a in ARG_SHAPES:
+            out.append(n + a + rng.choice(TAILS))
+    for h in RESERVE_HEADS:
+        for c in RESERVE_CMDS:
+            for a in ARG_SHAPES:
+                out.append("%s.%s%s%s" % (h, c, a, rng.choice(TAILS)))
+    if quick:
+        # the reservation grid in full (it is where "the next note" matters), the command grid sampled
+        res = [s for s in out if re.match(r"[A-Za-z0-9]+\.", s)]
+        cmd = [s for s in out if not re.match(r"[A-Za-z0-9]+\.", s)]
+        rng.shuffle(cmd)
+        out = res + cmd[:2500]
+    return out
+
+
+CHAR_CONTEXTS = ["%s", "Rhythm{%s}", "Rhythm{b4 %s s4}", "$%s{n36,}", "$%s{n36,} Rhythm{%s}", "c%s", "l%s", "@%s", "#%s={c} #%s", "~{%s}={c} %s",
+                 "v.%s()", "KF%s(c)", "y%s,1", "TR(%s)", "PRINT({%s})", "'c%s'", "[%s c]", "o%s", "{c%s}", "$a{%s} Rhythm{a}", "Sub{%s}",
+                 "STR S={%s} PRINT(S)", "TrackName={\"%s\"}", "v%s", "q%s", "n%s", "c,%s", "%s=1", "%s(1)", "IF(%s){c}", "c&%s", "/*%s*/"]
+
+
+def char_context_stream(quick):
+    """every character of the first 256 code points (and the boundaries of the ranges the code tests or indexes by) in every
+    context where the code looks at a single character: tables indexed by a character, range tests, prev()/re-read sites"""
+    cps = list(range(0, 0x100)) + [0x100, 0x2FF, 0x3000, 0x3001, 0x3040, 0x30FF, 0xFF00, 0xFF01, 0xFF10, 0xFF21, 0xFF3F, 0xFF40, 0xFF5E, 0xFF5F,
+                                    0xFFFD, 0xFFFF, 0x10000, 0x1F600, 0x10FFFF, 0xD7FF, 0xE000]
+    ctxs = CHAR_CONTEXTS if not quick else CHAR_CONTEXTS[:22]
+    out = []
+    for cp in cps:
+        ch = chr(cp)
+        for t in ctxs:
+            out.append(t.replace("%s", ch) + " c")
+    return out
+
+
 def run(ctx):
     rng = ctx.rng
-    srcs = []
+    srcs = grammar_stream(rng, ctx.tier == "quick") + char_context_stream(ctx.tier == "quick")
+    ctx.dist["grammar_and_char_streams"] = len(srcs)
     if ctx.tier == "quick":
         srcs += ["".join(p) for p in itertools.product(FRAGS, repeat=1)]
         srcs += ["".join(p) for p in itertools.product(FRAGS, repeat=2)]
